@@ -716,8 +716,12 @@ def record_call(fun, x0, args=(), bounds=None, constraints=(), callback=None, op
     res = None
     exc = None
     wlist = []
+    import contextlib
+    import io
+    sink = io.StringIO()
+    quiet = contextlib.redirect_stdout(sink) if (options or {}).get("disp") else contextlib.nullcontext()
     try:
-        with warnings.catch_warnings(record=True) as wl:
+        with warnings.catch_warnings(record=True) as wl, quiet:
             warnings.simplefilter("always")
             res = cobyqa.minimize(sfun, x0, args=args, bounds=bounds, constraints=cons_arg,
                                   callback=scb, options=options, **constants)
